@@ -22,6 +22,7 @@ static std::string final_files_differ(const Program &q, const RunResult &ra, con
         auto jt = rb.final_files.find(kv.first);
         if (jt == rb.final_files.end() || jt->second.exists != kv.second.exists) return "file " + kv.first + " exists under one configuration only";
         if (!kv.second.exists) continue;
+        { bool still_open = false; if (fm) for (auto &mf2 : fm->files) if (mf2.open && mf2.path == kv.first) still_open = true; if (still_open) continue; }   // the property speaks of the resulting file: a file the program never closed has no agreed final state (the model's closed-file record is older than the writes made since)
         cdf::File da, db; if (!cdf::decode_header(kv.second, da) || !cdf::decode_header(jt->second, db)) continue;   // reported by the model oracle of the run
         std::string why;
         auto same_atts = [&](const std::vector<cdf::Att> &x, const std::vector<cdf::Att> &y, const std::string &ctx) { if (x.size() != y.size()) { why = ctx + ": attribute count"; return; } for (size_t i = 0; i < x.size(); i++) if (x[i].name != y[i].name || x[i].type != y[i].type || x[i].nelems != y[i].nelems || x[i].raw != y[i].raw) { why = ctx + ": attribute '" + x[i].name + "'"; return; } };
